@@ -73,7 +73,7 @@ TrDeleteStore ==
 \* GetStore / ListStores observe exactly the live stores (C16), in id order (C14)
 TrListStores ==
   /\ IsEvent("ListStores")
-  /\ LET live == {s \in DOMAIN st : st[s].alive}
+  /\ LET live == {s \in DOMAIN st : st[s].alive /\ ("name" \notin DOMAIN Ev1 \/ Ev1.name = "" \/ st[s].name = Ev1.name)}   \* optional name filter
          f == Flatten(Ev1.pages)
      IN Judge(IF /\ SeqSet(f) = live /\ Len(f) = Cardinality(live)
                  /\ \A i, j \in DOMAIN f : i < j => f[i] < f[j]
